@@ -132,7 +132,11 @@ fn words(items: &[String]) -> String {
 }
 
 pub fn filter_set_object(name: &str, expr: &str) -> String {
-    format!("filter-set:     {name}\ndescr:          test object\nmp-filter:      {expr}\ntech-c:         DUMY-TEST\nadmin-c:        DUMY-TEST\nmnt-by:         MAINT-TEST\nchanged:        noc@example.net 20240101\nsource:         TEST")
+    // "@filter <expr>": an object that has the (IPv4-only) `filter:` attribute instead of `mp-filter:`
+    // "@nochanged <expr>": an object without the `changed:` attribute (removed from the RIPE database in 2016)
+    let (changed, expr) = expr.strip_prefix("@nochanged ").map_or(("changed:        noc@example.net 20240101\n", expr), |e| ("", e));
+    let (attr, expr) = expr.strip_prefix("@filter ").map_or(("mp-filter:", expr), |e| ("filter:   ", e));
+    format!("filter-set:     {name}\ndescr:          test object\n{attr}      {expr}\ntech-c:         DUMY-TEST\nadmin-c:        DUMY-TEST\nmnt-by:         MAINT-TEST\n{changed}source:         TEST")
 }
 
 fn answer(db: &Db, query: &str) -> String {
